@@ -87,19 +87,40 @@ def run_exec(path, requests, timeout=1800):
     return tr
 
 
-def run_both(requests, chunk=20000):
+def _plan(requests, chunk):
+    """index lists: heavy requests (large inputs; the model is quadratic on some) each in a chunk of
+    their own so that they run in parallel, the rest in chunks of `chunk`"""
+    heavy = [i for i, q in enumerate(requests) if len(q) > 6000 or "(rep " in q]
+    hs = set(heavy)
+    light = [i for i in range(len(requests)) if i not in hs]
+    plan = [[i] for i in heavy] + [light[i:i + chunk] for i in range(0, len(light), chunk)]
+    return [c for c in plan if c] or [[]]
+
+
+def _run_planned(path, requests, plan, ex):
+    futs = [ex.submit(run_exec, path, [requests[i] for i in c]) for c in plan]
+    out = [None] * len(requests)
+    for c, f in zip(plan, futs):
+        for i, t in zip(c, f.result()):
+            out[i] = t
+    return out
+
+
+def run_both(requests, chunk=8000):
     """Run requests through harness (impl) and driver (model) in chunks, in parallel processes."""
     import concurrent.futures as cf
-    impl, model = [], []
-    chunks = [requests[i:i + chunk] for i in range(0, len(requests), chunk)] or [[]]
+    plan = _plan(requests, chunk)
     with cf.ThreadPoolExecutor(max_workers=16) as ex:
-        fi = [ex.submit(run_exec, HARNESS, c) for c in chunks]
-        fm = [ex.submit(run_exec, DRIVER, c) for c in chunks]
-        for f in fi:
-            impl.extend(f.result())
-        for f in fm:
-            model.extend(f.result())
-    return impl, model
+        import threading
+        res = {}
+        def go(name, path):
+            res[name] = _run_planned(path, requests, plan, ex2)
+        with cf.ThreadPoolExecutor(max_workers=16) as ex2:
+            t1 = threading.Thread(target=go, args=("i", HARNESS)); t2 = threading.Thread(target=go, args=("m", DRIVER))
+            t1.start(); t2.start(); t1.join(); t2.join()
+    if "i" not in res or "m" not in res:
+        raise RuntimeError("an executor failed")
+    return res["i"], res["m"]
 
 
 def run_model(requests, chunk=20000):
